@@ -57,7 +57,7 @@ func init() {
 		Level:     "exploration",
 		Quick:     tierCfg{Runs: 7000, RaceRuns: 800, Deadline: 60, RunMS: 120000, MinimiseS: 30},
 		Thor:      tierCfg{Runs: 1500000, RaceRuns: 300000, Deadline: 1200, RunMS: 90000, MinimiseS: 240},
-		Rule:      "each run draws a program (one shared sm4 cipher.Block; package-level SM2/SM3/SM4/X.509/PKCS#7 operations on separate data, optionally with the curve uninitialised; LRU session cache Get/Put; one CertPool under concurrent Verify; one established connection with 1-2 readers, 1-3 writers per side and an optional Close at a drawn instant; one server Config serving 2-5 simultaneous handshakes with ticket-key rotation and Clone; a client whose parked reader receives HelloRequests from a reference server while 1-4 other tasks call Handshake/Read(nil)/ConnectionState/Write, compared with the same session run with the reader alone; a Write or Read parked in the transport and interrupted by SetDeadline/SetReadDeadline/SetWriteDeadline from another task; 2-6 simultaneous first handshakes asking one multi-certificate Config for different names, compared with lone handshakes on fresh Configs), 2..32 tasks and a scheduling policy (no preemption / mean gap 2, 12, 100 yield points / PCT with 1-3 priority change points); the scheduler owns every interleaving at statement, lock, once and atomic granularity. Oracles: result == result of the same call run alone beforehand; porcupine linearizability of the cache and of each connection direction (FIFO pipe with atomic writes); Go race detector evaluated on the simulated interleaving (race build; the baton is invisible to it); deadlock and panic. distinct_nontrivial = distinct run signatures (program, task count, policy) x schedule hash among runs with at least one preemption or contended switch.",
+		Rule:      "each run draws a program (one shared sm4 cipher.Block; package-level SM2/SM3/SM4/X.509/PKCS#7 operations on separate data, optionally with the curve uninitialised; LRU session cache Get/Put; one CertPool under concurrent Verify; one established connection with 1-2 readers, 1-3 writers per side and an optional Close at a drawn instant; one server Config serving 2-5 simultaneous handshakes with ticket-key rotation and Clone; a client whose parked reader receives HelloRequests from a reference server while 1-4 other tasks call Handshake/Read(nil)/ConnectionState/Write, compared with the same session run with the reader alone; a Write or Read parked in the transport and interrupted by SetDeadline/SetReadDeadline/SetWriteDeadline from another task; 2-6 simultaneous first handshakes asking one multi-certificate Config for different names, compared with lone handshakes on fresh Configs; 2-4 simultaneous gmtls.Dial calls to two hosts sharing one Config, the dialer answered by the simulated network), 2..32 tasks and a scheduling policy (no preemption / mean gap 2, 12, 100 yield points / PCT with 1-3 priority change points); the scheduler owns every interleaving at statement, lock, once and atomic granularity. Oracles: result == result of the same call run alone beforehand; porcupine linearizability of the cache and of each connection direction (FIFO pipe with atomic writes); Go race detector evaluated on the simulated interleaving (race build; the baton is invisible to it); deadlock and panic. distinct_nontrivial = distinct run signatures (program, task count, policy) x schedule hash among runs with at least one preemption or contended switch.",
 		Real:      realAll,
 		Stubs:     []string{"cooperative scheduler + baton (replaces the Go scheduler's choices; OnSite/Boost place a concurrent call at a drawn statement)", "simnet", "entropy streams", "fixture PKI", "porcupine (checker)"},
 		Assume:    []string{"race detector's bounded shadow history can miss a race, it cannot invent one", "statement-level yields only in the listed files; elsewhere preemption happens at lock/once/atomic/network points"},
